@@ -465,3 +465,83 @@ func HexV(F Fld, ss ...string) V {
 	}
 	return out
 }
+
+// ---- near-exceptional inputs ------------------------------------------------------------------
+//
+// The constant-time implementations recognise the exceptional cases by zero tests on stored limbs
+// of a temporary (tv2 = Z^2 u^4 + Z u^2 for SSWU; tv1, tv2, tv1*tv2 for SvdW). The solvers below
+// return the inputs u for which such a temporary takes a prescribed value t, so that a test can
+// place a single non-zero limb anywhere in it.
+
+func sqrtBoth(F Fld, w V) []V {
+	if F.IsZero(w) || !F.IsSquare(w) {
+		return nil
+	}
+	r := F.Sqrt(w)
+	if r == nil {
+		return nil
+	}
+	return []V{Red(F, r), Red(F, F.Neg(r))}
+}
+
+// SolveTv2 returns every non-zero u with Z^2 u^4 + Z u^2 = t: s^2 + s = t for s = Z u^2, i.e.
+// s = (-1 +- sqrt(1 + 4t)) / 2, then u = +-sqrt(s / Z).
+func (s *SSWU) SolveTv2(t V) []V {
+	F := s.F
+	disc := F.Add(F.One(), F.Mul(smallC(F, 4), t))
+	if !F.IsSquare(disc) {
+		return nil
+	}
+	r := F.Sqrt(disc)
+	if r == nil {
+		return nil
+	}
+	half := F.Inv(smallC(F, 2))
+	var out []V
+	for _, rr := range []V{r, F.Neg(r)} {
+		sv := F.Mul(F.Sub(rr, F.One()), half)
+		for _, u := range sqrtBoth(F, F.Mul(sv, F.Inv(s.Z))) {
+			zu2 := F.Mul(s.Z, F.Mul(u, u))
+			if F.Eq(F.Add(F.Mul(zu2, zu2), zu2), t) { // self-check
+				out = append(out, u)
+			}
+		}
+		if F.IsZero(F.Sub(rr, F.Neg(rr))) {
+			break
+		}
+	}
+	return out
+}
+
+// SolveTv returns every non-zero u for which the temporary `which` of the SvdW map equals t:
+// 1: tv1 = 1 - c1 u^2, 2: tv2 = 1 + c1 u^2, 3: tv1*tv2 = 1 - c1^2 u^4 (the value handed to inv0).
+func (s *SvdW) SolveTv(which int, t V) []V {
+	F := s.F
+	ic := F.Inv(s.C1)
+	var u2s []V
+	switch which {
+	case 1:
+		u2s = []V{F.Mul(F.Sub(F.One(), t), ic)}
+	case 2:
+		u2s = []V{F.Mul(F.Sub(t, F.One()), ic)}
+	case 3:
+		for _, r := range sqrtBoth(F, F.Sub(F.One(), t)) {
+			u2s = append(u2s, F.Mul(r, ic))
+		}
+	default:
+		panic("ref: SolveTv: which must be 1..3")
+	}
+	var out []V
+	for _, u2 := range u2s {
+		for _, u := range sqrtBoth(F, u2) {
+			tv1 := F.Mul(F.Mul(u, u), s.C1)
+			tv2 := F.Add(F.One(), tv1)
+			tv1 = F.Sub(F.One(), tv1)
+			got := map[int]V{1: tv1, 2: tv2, 3: F.Mul(tv1, tv2)}[which]
+			if F.Eq(got, t) { // self-check
+				out = append(out, u)
+			}
+		}
+	}
+	return out
+}
